@@ -20,6 +20,10 @@ structure WInv (w : W) (sb : List Nat) (L : Lay) : Prop where
   wf : (volOf w.img w.c sb L).wfB = true
   names : ∀ e ∈ liveOf w.img L.cat, ∀ x ∈ slice e 3 30, 128 ≤ x ∧ x < 256
   catNe : L.cat ≠ []
+  /-- the format-time system units cover track 0 and the catalog track (no free sector there) -/
+  cover : ∀ s, s < w.c → s ∈ sb ∧ vtocTrack * w.c + s ∈ sb
+  track1 : Vtoc.track1 w.v = vtocTrack
+  lastTrack : 1 ≤ Vtoc.lastTrack w.v
 
 /-! ## bytes of an entry -/
 
@@ -309,7 +313,9 @@ theorem modify_entry {w : W} {sb : List Nat} {L : Lay} (hi : WInv w sb L) {u k t
       (filesOf w.img w.c (B.filter isLive) T2) (recOf w.img w.c (entryAt (modSector (sec w.img u) k ty2 nm) k) t) := by
     unfold volOf replaced
     simp only [hvf', freeOf, hvt]
-  refine ⟨⟨hok', ?_, ?_, ?_, hi.catNe⟩, _, _, t, hvf, by rw [hc'] at *; exact hvol⟩
+  have hvv' : w'.v = w.v := by rw [← hw']; rfl
+  refine ⟨⟨hok', ?_, ?_, ?_, hi.catNe, by rw [hc']; exact hi.cover, by rw [hvv']; exact hi.track1, by rw [hvv']; exact hi.lastTrack⟩,
+    _, _, t, hvf, by rw [hc'] at *; exact hvol⟩
   · rw [hc']
     refine ⟨hd.hc, by rw [hsz]; exact hd.size, by rw [hvt]; exact hd.vTracks, by rw [hvt]; exact hd.vSpt,
       by rw [hvt]; exact hd.vPairs, by rw [hvt]; exact hcatch, hd.catNodup, hd.catLen, ?_⟩
